@@ -126,7 +126,8 @@ def _cases(tier, rng):
         q += 1
         ax = rng.choice(axes)
         yield {"prog": prog, "axis": ax, "seed": rng.randrange(10**6), "storage": rng.choice(("file_array", "dict")),
-               "mode": rng.choice(("fixed", "fixed", "learners", "learners-split"))}
+               "mode": rng.choice(("fixed", "fixed", "learners", "learners-split")),
+               "stop_after": rng.choice((None, None, "first", "last"))}
 
 
 def _run_part(p, prog, folder, storage, fixed, first):
@@ -172,6 +173,21 @@ def _check(case):
             return bad  # arrays with never-named axes: fixed_indices is not exercised further (stated bound)
         # ---- partition the axis ----
         parts = random_partition(rng, size)
+        if case.get("stop_after") is not None and len(parts) > 1:
+            # only the first piece(s), then the run is completed by one full call: its *returned* arrays are the whole's
+            parts = parts[-1:] if case["stop_after"] == "last" else parts[:1]
+            try:
+                _run_part(p, prog, folder, storage, {ax: parts[0]}, True)
+                res, log = _run_part(p, prog, folder, storage, None, False)
+            except Exception as e:  # noqa: BLE001
+                return bad + [f"piece {parts[0]!r} then the full run raised {type(e).__name__}: {str(e)[:150]}"]
+            for f in prog["funcs"]:
+                for o in f["outputs"]:
+                    got = progs.to_nested(res[o].output)
+                    if got != want[o]:
+                        bad.append(f"after the piece {parts[0]!r} the completing full run returns {o} = {str(got)[:140]}, "
+                                   f"the whole is {str(want[o])[:140]}")
+            return bad
         done: set = set()
         seen_calls: list = []
         for n_, part in enumerate(parts):
